@@ -926,11 +926,10 @@ def corrupt(rng, line):
     def bump(c):
         return ["f", [c[1][0] + c[1][1], c[1][1]]] if c[0] == "f" else val(1)
     if op == 'gaphist':
-        st = o['steps'][-1]
-        if st['kept']:
-            st['kept'] = st['kept'][1:]; st['vals'] = st['vals'][1:]
-            return o, 'gaphist_kept'
-        return None
+        st = o['steps'][-1]              # a row that never arrived is held (whatever the reading of 'over max_gap')
+        ghost = max([x['t'] for x in o['steps']]) + 1000
+        st['kept'] = st['kept'] + [ghost]; st['vals'] = st['vals'] + [val(100 + ghost)]
+        return o, 'gaphist_kept'
     if op == 'fold':
         if o['out']['kind'] != 'val':
             return None
@@ -948,7 +947,7 @@ def corrupt(rng, line):
         return None
     v = out['v']
     if op == 'sf':
-        out['v'] = bump(v) if v[0] == "f" else val(1)
+        out['v'] = ["f", [3 * v[1][0], v[1][1]]] if v[0] == "f" and v[1][0] != 0 else val(1)       # (three times the answer: never a rounding of x)
         return o, 'sf_result'
     if isinstance(v, dict) and v.get('k') == 's' and v['v']:
         j = rng.randrange(len(v['v']))
@@ -1021,7 +1020,7 @@ def c2s(ctx, report, n_frames, n_gaps, n_hist, n_folds, n_fhist):
         ln = len(obs) + j + 1
         original_rejected = (k + 1) in bad
         if ln not in bad:
-            raise Machinery('binding: a corrupted copy of line %d (%s: one field changed) was accepted by Trace_Frames' % (k + 1, cor['op']))
+            raise Machinery('binding: a corrupted copy of line %d (%s: one field changed) was accepted by Trace_Frames: %s' % (k + 1, cor['op'], json.dumps(cor)[:600]))
         if not original_rejected:
             binding[cor['op']] = binding.get(cor['op'], 0) + 1
     for ln, clause in sorted(bad.items()):
@@ -1089,11 +1088,11 @@ def run(ctx):
     q = ctx.quick
     tier = 'quick' if q else 'thorough'
     only = os.environ.get('X06_ONLY', 'abc')          # development aid: a = frame helpers, b = gaps, c = folds (default: all)
-    mcs = [('MC_Frames', 'MC_Frames_%s.cfg' % tier, None), ('MC_FramesGap', 'MC_FramesGap_hist_%s.cfg' % tier, None),
+    mcs = [('MC_FramesGap', 'MC_FramesGap_hist_%s.cfg' % tier, None),
            ('MC_FramesGap', 'MC_FramesGap_restored.cfg', 'Restored'), ('MC_FramesFold', 'MC_FramesFold_obj_%s.cfg' % tier, None),
            ('MC_FramesFold', 'MC_FramesFold_leaky.cfg', 'AnswerIsLaw')]
     if not q:
-        mcs += [('MC_FramesGap', 'MC_FramesGap_thorough.cfg', None), ('MC_FramesFold', 'MC_FramesFold_thorough.cfg', None)]
+        mcs += [('MC_Frames', 'MC_Frames_thorough.cfg', None), ('MC_FramesGap', 'MC_FramesGap_thorough.cfg', None), ('MC_FramesFold', 'MC_FramesFold_thorough.cfg', None)]
     gens = [('MC_Frames', 'MC_Frames_gen_%s.cfg' % tier), ('MC_FramesGap', 'MC_FramesGap_gen_%s.cfg' % tier), ('MC_FramesGap', 'MC_FramesGap_genhist_%s.cfg' % tier),
             ('MC_FramesFold', 'MC_FramesFold_gen_%s.cfg' % tier), ('MC_FramesFold', 'MC_FramesFold_genobj_%s.cfg' % tier)]
     fam = {'MC_Frames': 'a', 'MC_FramesGap': 'b', 'MC_FramesFold': 'c'}
@@ -1109,10 +1108,11 @@ def run(ctx):
                 ctx.mc(m, cfg, must_fail=fail, coverage=False)
             else:
                 ctx.mc(m, cfg)
-        # (the quick generator configurations of the gap and fold calls carry every INVARIANT of MC_FramesGap_quick.cfg /
-        #  MC_FramesFold_quick.cfg: one run checks the clauses and prints the cases)
+        # (the generator configurations of the calls carry every INVARIANT of MC_Frames_<tier>.cfg / MC_FramesGap_<tier>.cfg /
+        #  MC_FramesFold_<tier>.cfg: in the quick tier one run checks the clauses and prints the cases; the thorough tier also
+        #  runs the larger MC configurations on their own)
         if 'a' in only:
-            s2c_frames(ctx, report, ctx.generate(*gens[0]), {'concat1': 3000, 'apply': 800, '*': 1000} if q else {'concat1': 30000, 'apply': 6000, '*': 12000})
+            s2c_frames(ctx, report, ctx.generate(*gens[0]), {'concat1': 2400, 'apply': 600, '*': 800} if q else {'concat1': 30000, 'apply': 6000, '*': 12000})
         if 'b' in only:
             s2c_gaps(ctx, report, ctx.generate(*gens[1]), 2500 if q else 0)
             s2c_gap_histories(ctx, report, ctx.generate(*gens[2]))
